@@ -192,7 +192,28 @@ class Methods:
             # result must be a fresh set
             return ex.bind(res, lambda s, acc: self.to_set(s, acc, False))
         if name == "next":
-            raise Unsupported("next()")
+            # next(iter(s)): some element of a non-empty collection (which one is unspecified for sets)
+            src = args[0]
+            items = self.concrete_items(st, src)
+            if items is not None:
+                if items:
+                    return [(st, items[0])]
+                return [(st, Raised("StopIteration"))] if len(args) == 1 else [(st, args[1])]
+            if self._is_set(st, src):
+                t = ex.ty_of(st, src)
+                term = ex.to_term(st, src, t)
+                xq = z3.Const(f"x!nx{fresh_id()}", m.sort(t[1]))
+                out = []
+                for s2, b in ex.branch(st, z3.Exists([xq], z3.Select(term, xq))):
+                    if b:
+                        e_ = ex.fresh(s2, "anyelem", t[1])
+                        s2.undet.append(e_.term)
+                        s2.assume(z3.Select(term, e_.term))
+                        out.append((s2, e_))
+                    else:
+                        out.append((s2, Raised("StopIteration")) if len(args) == 1 else (s2, args[1]))
+                return out
+            raise Unsupported("next() of " + repr(src))
         raise Unsupported(f"builtin {name}")
 
     def setattr_dyn(self, st, obj, name, v):
@@ -226,8 +247,9 @@ class Methods:
             t = self.ex.ty_of(st, v)
             card = self.ex.ufunc("card_" + _tyname(t[1]), [m.sort(t)], z3.IntSort())
             term = self.ex.to_term(st, v, t)
+            xq = z3.Const(f"x!card{fresh_id()}", m.sort(t[1]))
             st.assume(card(term) >= 0)
-            st.assume((card(term) == 0) == (term == z3.K(m.sort(t[1]), False)))
+            st.assume((card(term) == 0) == z3.Not(z3.Exists([xq], z3.Select(term, xq))))
             return [(st, SV(card(term), "int"))]
         raise Unsupported(f"len of {v!r}")
 
